@@ -362,7 +362,170 @@ def rule_d(ck, u, eng):
                'pairs free car, cdr, the pair cell and the node; symbols free text and node; other nodes the node; the pointer is reset' if bad is None else bad)
 
 
+_CT = {}
+
+
+def ctype_masks():
+    if not _CT:
+        names = ['_ISdigit', '_ISxdigit', '_ISspace', '_ISalpha', '_ISalnum']
+        try:
+            vals = front.probe_values(UNIT, names)
+            _CT.update({v: 'is' + n[3:] for n, v in zip(names, vals)})
+        except front.FrontError:
+            _CT[-1] = None
+    return _CT
+
+
+def rule_e(ck, u):
+    """token table and value construction"""
+    E = u.enums
+    eng = sym.Engine(u, sizeof={}, inline=set())
+    eng.record_loads = True
+    # looking_at: decision list
+    ps = eng.paths('looking_at')
+    i_ = ('v', 'i')
+    cls = {}
+    for p in ps:
+        if p.ret is None or p.ret[0] != 'c':
+            continue
+        eqs = {}
+        for c in p.cond_terms():
+            if c[0] == 'cmp' and c[1] == '==' and c[2][0] == 'i' and strip(c[2][1]) == S and sym.is_c(c[3]):
+                off = (L(c[2][2]) - L(i_))
+                eqs[int(off.c) if off.is_const() else None] = chr(c[3][1])
+        calls = [e.name for e in p.calls() if any(strip(a) != S for a in e.args)]
+        preds = []
+        for e in p.calls():
+            truthy = any(c[0] == 'cmp' and c[1] == '!=' and strip(c[2]) == e.result and c[3] == C(0) for c in p.cond_terms())
+            if truthy:
+                preds.append(e.name)
+        # <ctype.h> predicates may be macros over the classification table: (table[c] & _ISxxx) != 0
+        for c in p.cond_terms():
+            if c[0] == 'cmp' and c[1] == '!=' and c[3] == C(0) and c[2][0] == '&b' and sym.is_c(c[2][2]) and '__ctype_b_loc' in fmt(c[2][1]):
+                nm = ctype_masks().get(c[2][2][1])
+                if nm:
+                    preds.append(nm)
+        cls.setdefault(p.ret[1], []).append((eqs, preds))
+    want = {E['LOOKING_AT_INT_HEX']: lambda eqs, preds: eqs.get(0) == '#' and eqs.get(1) == 'x' and 'isxdigit' in preds,
+            E['LOOKING_AT_PAREN_OPEN']: lambda eqs, preds: eqs.get(0) == '(',
+            E['LOOKING_AT_PAREN_CLOSE']: lambda eqs, preds: eqs.get(0) == ')',
+            E['LOOKING_AT_INT_DEC']: lambda eqs, preds: 'isdigit' in preds,
+            E['LOOKING_AT_SYMBOL']: lambda eqs, preds: 'issyminitch' in preds}
+    bad = None
+    for k, f in want.items():
+        lst = cls.get(k, [])
+        if not lst or not all(f(eqs, preds) for eqs, preds in lst):
+            nm = [n for n, v in E.items() if v == k and n.startswith('LOOKING_AT')][0]
+            bad = '%s is decided by %s' % (nm, lst[:2])
+    if E['LOOKING_AT_UNKNOWN'] not in cls:
+        bad = bad or 'no UNKNOWN classification'
+    ck.verdict(bad is None, 'C20.e', 'looking_at:table', cast.where(u.fn('looking_at')),
+               '"#x"+hex digit -> hex integer, "(" / ")" -> list delimiters, digit -> decimal integer, symbol-initial character -> symbol, anything else unknown' if bad is None else bad)
+    # sx_parse_token: one arm per classification
+    ps = eng.paths('sx_parse_token')
+    arms = {}
+    for p in ps:
+        la = p.calls('looking_at')
+        if not la:
+            continue
+        kv = None
+        for c in p.cond_terms():
+            if c[0] == 'cmp' and c[1] == '==' and strip(c[2]) == la[0].result and sym.is_c(c[3]):
+                kv = c[3][1]
+        parsers = [e.name for e in p.calls() if e.name in ('parse_integer', 'parse_hinteger', 'parse_symbol', 'sx_make_empty_list')]
+        st = sym.mem_read(p.mem, ('f', ('&', ('v', 'rv')), 'status'))
+        node_null = any(c[0] == 'cmp' and c[1] == '==' and c[3] == C(0) and any(x[0] == 'call' and x[1] in parsers for x in sym.subterms(c[2])) for c in p.cond_terms())
+        arms.setdefault(kv, []).append((tuple(parsers), st, node_null, p))
+    exp = {E['LOOKING_AT_INT_DEC']: ('parse_integer', 'SXS_BROKEN_INTEGER'), E['LOOKING_AT_INT_HEX']: ('parse_hinteger', 'SXS_BROKEN_INTEGER'),
+           E['LOOKING_AT_SYMBOL']: ('parse_symbol', 'SXS_BROKEN_SYMBOL')}
+    bad = None
+    for kv, (parser, fail) in exp.items():
+        lst = arms.get(kv, [])
+        if not lst:
+            bad = 'no arm for classification %d' % kv
+            continue
+        for parsers, st, node_null, p in lst:
+            if parsers != (parser,):
+                bad = 'classification %d handled by %s, expected %s' % (kv, parsers, parser)
+            if node_null and st != C(E[fail]):
+                bad = 'a failed %s is reported as status %s' % (parser, fmt(st))
+            if not node_null and st != C(E['SXS_SUCCESS']) and fmt(st) != 'rv.status':
+                bad = 'successful %s reported as %s' % (parser, fmt(st))
+    for parsers, st, nn, p in arms.get(E['LOOKING_AT_PAREN_OPEN'], []):
+        if st != C(E['SXS_FOUND_LIST']) or parsers:
+            bad = bad or '"(" does not yield FOUND_LIST'
+    for parsers, st, nn, p in arms.get(E['LOOKING_AT_UNKNOWN'], []) + arms.get(None, []):
+        if st != C(E['SXS_UNKNOWN_INPUT']):
+            bad = bad or 'unknown input reported as %s' % fmt(st)
+    if (set(exp) | {E['LOOKING_AT_PAREN_OPEN'], E['LOOKING_AT_PAREN_CLOSE']}) - set(arms):
+        bad = bad or 'missing arms: %s' % sorted((set(exp) | {E['LOOKING_AT_PAREN_OPEN'], E['LOOKING_AT_PAREN_CLOSE']}) - set(arms))
+    # position reported = where the token parser stopped
+    for lst in arms.values():
+        for parsers, st, nn, p in lst:
+            pos = sym.mem_read(p.mem, ('f', ('&', ('v', 'rv')), 'position'))
+            if 'j' not in fmt(pos) and pos[0] != 'h' and 'skip_ws' not in fmt(pos):
+                bad = bad or 'reported position is %s, not the scanning cursor' % fmt(pos)
+    ck.verdict(bad is None, 'C20.e', 'sx_parse_token:arms', cast.where(u.fn('sx_parse_token')),
+               'each token class is handled by its own parser, failures map to BROKEN_INTEGER / BROKEN_SYMBOL / UNKNOWN_INPUT, "(" yields FOUND_LIST, the cursor is reported as position' if bad is None else bad)
+    # wrappers: offset / predicate / base triple
+    for w, (off, pred, base) in (('parse_integer', (0, 'isdigit', 10)), ('parse_hinteger', (2, 'isxdigit', 16))):
+        fw = u.fn(w)
+        ok = False
+        for x in cast.walk(fw):
+            if cast.kind(x) == 'CallExpr' and cast.callee_name(x) == 'parse_integer_':
+                a = x['inner'][1:]
+                ok = (u.const_value(a[3]) == off and cast.strip_all_casts(a[4]).get('referencedDecl', {}).get('name') == pred and u.const_value(a[5]) == base)
+        ck.verdict(ok, 'C20.e', w, cast.where(fw), '%s scans from offset %d with %s in base %d' % (w, off, pred, base) if ok else '%s does not pass (offset %d, %s, base %d)' % (w, off, pred, base))
+    # parse_integer_: positional value accumulation
+    ps = eng.paths('parse_integer_')
+    bad = None
+    seen = False
+    for p in ps:
+        if p.end != 'loopback' or len(p.loops) < 2:
+            continue
+        lmap = p.loops[-1][1]
+        kv = {fmt(k): (k, h, pre) for k, (h, pre) in lmap.items()}
+        if 'newi' not in kv or 'mult' not in kv:
+            continue
+        seen = True
+        (kn, hn, pn), (km, hm, pm) = kv['newi'], kv['mult']
+        if pn != C(0) or pm != C(1):
+            bad = 'accumulator/multiplier start at %s/%s (expected 0/1)' % (fmt(pn) if pn else None, fmt(pm) if pm else None)
+        n2, m2 = sym.mem_read(p.mem, kn), sym.mem_read(p.mem, km)
+        d2i = p.calls('digit2int')
+        if not d2i:
+            bad = 'digit value not taken from digit2int'
+            continue
+        want_n = ('+', hn, ('*', hm, d2i[-1].result))
+        if strip(n2) != want_n and strip(n2) != ('+', hn, ('*', d2i[-1].result, hm)):
+            bad = "value' = %s, expected value + mult * digit" % fmt(n2)
+        if strip(m2) not in (('*', hm, ('v', 'base')), ('*', ('v', 'base'), hm)):
+            bad = "mult' = %s, expected mult * base" % fmt(m2)
+        jk = kv.get('j')
+        if jk:
+            dj = L(sym.mem_read(p.mem, jk[0])) - L(jk[1])
+            if not (dj.is_const() and dj.c == -1):
+                bad = 'digit cursor moves by %s (expected -1: least significant digit first)' % dj
+    ck.verdict(bad is None and seen, 'C20.e', 'parse_integer_:value', cast.where(u.fn('parse_integer_')),
+               'value = sum of digit * base^k from the last digit backwards' if bad is None and seen else (bad or 'accumulation loop not recognised'))
+    # parse_symbol: text window and position
+    ps = eng.paths('parse_symbol')
+    bad = None
+    for p in ps:
+        mk = p.calls('sx_make_symboln')
+        for e in mk:
+            start = L(e.args[0]) - L(S)
+            ln = L(e.args[1])
+            i0 = ('i', ('v', 'i'), C(0))
+            if not ((start - L(i0)).is_const() and (start - L(i0)).c == 0):
+                bad = 'symbol text starts at %s, expected s + *i' % fmt(e.args[0])
+            if 'j' not in fmt(e.args[1]) and e.args[1][0] != '-':
+                bad = 'symbol length %s' % fmt(e.args[1])
+    ck.verdict(bad is None, 'C20.e', 'parse_symbol:window', cast.where(u.fn('parse_symbol')), 'symbol text = s[*i .. scan end)' if bad is None else bad)
+
+
 def run(ck):
+    ck.rule('C20.e', 'token table: classification decision list, one parser arm per class with the right failure status, (offset, digit predicate, base) per integer syntax, positional value accumulation, symbol text window')
     ck.rule('C20.a', 'index bounds: every read s[e] in skip_ws, looking_at, parse_symbol, parse_integer_ is entailed below n by the dominating guards (call-site precondition i < n checked in sx_parse_token; backward digit loop in the exception table)')
     ck.rule('C20.b', 'clang static analyzer core.NullDereference reports nothing on sx.c (armed channel; must fire on the kept positive example)')
     ck.rule('C20.c', 'digit table: every character the digit predicate of a parse_integer_ call accepts has a digit2int value below the base')
@@ -383,6 +546,7 @@ def run(ck):
         rule_a(ck, u, eng)
         rule_c(ck, u, eng)
         rule_d(ck, u, eng)
+        rule_e(ck, u)
     except (sym.Unsupported, sym.PathLimit) as e:
         ck.broken('C20.a', 'engine', '', str(e))
     rule_b(ck, u)
